@@ -128,6 +128,25 @@ func verifyFunction(p *Program, cs *Contracts, fc *FuncContract, fn *ssa.Functio
 		rep.Obls = append(rep.Obls, &Obligation{Name: name + "/cover/return", Func: name, Kind: "cover", Label: "return",
 			Prefix: len(enc.body), Guard: "true", Goal: or(x.retGuards...), Cover: true, Enc: enc, Src: "some return site is reachable"})
 	}
+	if rep.Err == nil && os.Getenv("GOVC_DEADBLOCKS") != "" {
+		// diagnostic: which blocks does the model consider unreachable (dead code,
+		// or a contradiction among the assumed contracts that hides obligations)?
+		for _, b := range fn.Blocks {
+			r, ok := x.reach[b]
+			if !ok || r == "true" {
+				continue
+			}
+			pos := ""
+			for _, in := range b.Instrs {
+				if in.Pos().IsValid() {
+					pos = x.pos(in.Pos())
+					break
+				}
+			}
+			rep.Obls = append(rep.Obls, &Obligation{Name: fmt.Sprintf("%s/cover/block-%d", name, b.Index), Func: name, Kind: "cover", Label: fmt.Sprintf("block-%d", b.Index),
+				Prefix: len(enc.body), Guard: "true", Goal: r, Cover: true, Diag: true, Enc: enc, Src: "block reachable", Where: pos})
+		}
+	}
 	rep.Obls = append(rep.Obls, disciplineObligations(fn, name, fc, enc)...)
 	rep.Notes = enc.notes
 	for a := range enc.assumptionsUsed {
@@ -342,6 +361,12 @@ func runCheck(o CheckOpts) (code int) {
 				lines = append(lines, l)
 			}
 			ev.Obligations++
+			continue
+		}
+		if ob.Cover && ob.Diag {
+			if res.Status == "unsat" {
+				lines = append(lines, fmt.Sprintf("DEADBLOCK %s at %s", ob.Name, ob.Where))
+			}
 			continue
 		}
 		if ob.Cover {
